@@ -9,6 +9,7 @@ import IxpeVerif.Model.SelectKw
 import IxpeVerif.Model.Channels
 import IxpeVerif.Model.Hist
 import IxpeVerif.Model.Kislat
+import IxpeVerif.Model.Polarization
 /-! Dispatcher of the hand-written models for the line-protocol driver.  Integers travel in decimal. -/
 namespace Driver
 
@@ -79,6 +80,10 @@ def showFs (xs : List Float) : String := " ".intercalate (xs.map fun x => toStri
 
 def kEvents : List Int → List (Kislat.Ev Float)
   | q :: u :: e :: w :: mu :: a :: rest => ⟨fbits q, fbits u, fbits e, fbits w, fbits mu, fbits a⟩ :: kEvents rest
+  | _ => []
+
+def compsOf : List Int → List (Pol.Comp Float)
+  | f :: m :: d :: rest => ⟨fbits f, fbits m, fbits d⟩ :: compsOf rest
   | _ => []
 
 def rowsOf : List Int → List EvL.Row
@@ -181,6 +186,15 @@ def step (ws : List String) : String :=
     let ps := Kislat.prep (uw == "1") (ac == "1") (kEvents (ints ev))
     let s := Kislat.binSums (fw emin) (fw emax) ps
     toString s.counts ++ " " ++ showFs (Kislat.row s)
+  -- harm <3n> (F m delta)…   -> F m delta of the combination
+  | "harm" :: rest =>
+    let (c, _) := takeN rest
+    let r := Pol.harmonicAddition (compsOf (ints c))
+    showFs [r.1, r.2.1, r.2.2]
+  -- refused <n> degrees…  -> 1 if the simulator must refuse them
+  | "refused" :: rest =>
+    let (c, _) := takeN rest
+    if Pol.degreesRefused ((ints c).map fbits) then "1" else "0"
   | ["pikey", pi] => showInts [piKey pi.toInt!]
   | ["split", t] => let r := EvL.splitTime t.toInt!; showInts [r.1, r.2]
   | _ => "bad-op"
